@@ -71,6 +71,10 @@ def main():
     from sim import planner  # noqa: F401  (node-side generator)
     from sim import nodeext  # noqa: F401  (scenario-specific node ops)
 
+    from sim import reset
+
+    gc.collect()
+    base = reset.capture()
     gc.collect()
     gc.disable()
     gc.freeze()
@@ -88,13 +92,17 @@ def main():
                 if st != 0:
                     # the node died abnormally: tell the driver (it is waiting for a reply)
                     wr({"died": st})
+        elif z == "inproc":
+            # search mode: no fork; global UFL state is put back to zygote start
+            reset.restore(base)
+            serve(ops, nodeext, inproc=True)
         elif z == "quit":
             os._exit(0)
         elif z == "ping":
             wr({"pong": 1})
 
 
-def serve(ops, nodeext):
+def serve(ops, nodeext, inproc=False):
     node = ops.Node(REPO)
     nodeext.install(node)
     while True:
@@ -104,6 +112,8 @@ def serve(ops, nodeext):
             wr({"r": r})
         elif "end" in m:
             wr({"bye": 1})
+            if inproc:
+                return
             os._exit(0)
         else:
             wr({"r": {"skip": "bad-message"}})
